@@ -97,7 +97,7 @@ def c02_1(R):
                exit_filter=lambda c: c is not None and c.startswith("Ready(Ok(") and c != "Ready(Ok(const:0))")
 
 
-@rule("C02.2", ["C02", "C19"], ["E3"], "no Poll::Pending without a registered waker (stream halves)",
+@rule("C02.2", ["C02", "C19", "C03"], ["E3"], "no Poll::Pending without a registered waker (stream halves)",
       "In poll_write, poll_flush, poll_shutdown and poll_read_vectored every exit whose value is Poll::Pending is preceded on all paths by update_optional_waker(<own waker field>, cx) "
       "or cx.waker().wake_by_ref(); boolean / zero-ness guards on locals are evaluated.")
 def c02_2(R):
